@@ -24,6 +24,7 @@ from ..exception import HttpProtocolException
 from ..protocols import httpProtocols
 from ..responses import NOT_FOUND_RESPONSE_PKT
 from ..websocket import WebsocketFrame, websocketOpcodes
+from ...core.base import TcpUpstreamConnectionHandler
 from ...core.event import eventNames
 from ...common.flag import flags
 from ...common.types import Readables, Writables, Descriptors
@@ -245,7 +246,14 @@ class HttpWebServerPlugin(HttpProtocolHandlerPlugin):
                             'No route for pipelined request, will tear down request...',
                         )
                     route.handle_request(self.pipeline_request)
-                    if not self.pipeline_request.is_http_1_1_keep_alive:
+                    # A route relaying the request to an upstream (reverse
+                    # proxy) has no response yet, the connection then ends
+                    # when that upstream is done.
+                    awaits_upstream = isinstance(
+                        route, TcpUpstreamConnectionHandler,
+                    ) and route.upstream is not None and not route.upstream.closed
+                    if not self.pipeline_request.is_http_1_1_keep_alive and \
+                            not awaits_upstream:
                         raise HttpProtocolException(
                             'Pipelined request is not keep-alive, will tear down request...',
                         )
